@@ -127,20 +127,80 @@ def sign_cases_of(Ms, limit=3):
     return out
 
 
+def quats_without(quats, x):
+    """The unit-norm constraints on the hyperplane x = 0: the component x drops out of its tuple."""
+    return [tuple(b for b in q if b is not x) for q in quats]
+
+
 def decide_by_cases(A, B, quats=()):
-    """decide_mat after splitting on the sign of every symbol that occurs under fabs/sign.
+    """decide_mat after splitting on the sign of every symbol that occurs under fabs/sign, and for symbols under sign()
+    also on the hyperplane symbol = 0 (sign(0) = 0 is on neither side).
     -> (verdict, detail): EQUAL only if equal in every case; DIFFERENT as soon as one case differs."""
     cases = sign_cases_of([A, B])
-    if not cases or len(cases) == 1:
+    zs = list(dict.fromkeys(x for M in (A, B) for x in sign_zero_symbols(M)))
+    if not cases or (len(cases) == 1 and not zs):
         return decide_mat(A, B, quats)
     worst = EQUAL
     detail = None
-    for label, sg in cases:
-        v, d = decide_mat(with_signs(A, sg), with_signs(B, sg), quats)
+    todo = [(label, with_signs(A, sg), with_signs(B, sg), quats) for label, sg in cases]
+    todo += [("%r = 0" % x, with_zero(A, x), with_zero(B, x), quats_without(quats, x)) for x in zs]
+    for label, a_, b_, qs in todo:
+        v, d = decide_mat(a_, b_, qs)
         if v == DIFFERENT:
             return DIFFERENT, "case %s: %s" % (label, d)
         if v == UNKNOWN and worst == EQUAL:
             worst, detail = UNKNOWN, "case %s: %s" % (label, d)
+    return worst, detail
+
+
+def with_zero(M, x):
+    """M on the hyperplane x = 0 for an input symbol x: x -> 0 everywhere, sign(c x) -> 0 (CasADi: sign(0) = 0)."""
+    def f(a):
+        if a is x:
+            return Poly.const(0)
+        if a.kind in ("sign", "fabs") and isinstance(a.key[0], Poly):
+            inner = deep_subs(a.key[0], f)
+            if not inner.t:
+                return Poly.const(0)
+        return None
+    return MatVal(M.r, M.c, [[deep_subs(p, f) if p.t else p for p in row] for row in M.cells], M.kind)
+
+
+def sign_zero_symbols(M):
+    """Bare input symbols x with sign(c x) in M: the only kink whose value AT the kink (0) is on neither side."""
+    out = []
+    for p in M.flat():
+        for a in all_atoms(p):
+            if a.kind == "sign" and isinstance(a.key[0], Poly):
+                sa = a.key[0].signed_atom()
+                if sa is not None and sa[1].kind == "sym" and sa[1] not in out:
+                    out.append(sa[1])
+    return out
+
+
+def decide_cell_by_cases(p, q, quats=()):
+    """decide() of two cells; when undecided and a sign/fabs of an input occurs: split on the sign of those inputs and,
+    for inputs under sign(), also on the hyperplane input = 0 (sign(0) = 0 lies on neither side).  DIFFERENT in one
+    non-empty case is DIFFERENT; EQUAL needs every case."""
+    v = decide(p, q, quats)
+    if v != UNKNOWN:
+        return v, None
+    A, B = MatVal(1, 1, [[p]], "SX"), MatVal(1, 1, [[q]], "SX")
+    cases = sign_cases_of([A, B])
+    zs = [x for M in (A, B) for x in sign_zero_symbols(M)]
+    if not cases or (len(cases) == 1 and not zs):
+        return v, None
+    worst, detail = EQUAL, None
+    todo = [(label, with_signs(A, sg), with_signs(B, sg)) for label, sg in cases if sg]
+    todo = [(l_, a_, b_, quats) for l_, a_, b_ in todo]
+    for x in dict.fromkeys(zs):
+        todo.append(("%r = 0" % x, with_zero(A, x), with_zero(B, x), quats_without(quats, x)))
+    for label, a_, b_, qs in todo:
+        v = decide(a_.cells[0][0], b_.cells[0][0], qs)
+        if v == DIFFERENT:
+            return DIFFERENT, "case %s" % label
+        if v == UNKNOWN and worst == EQUAL:
+            worst, detail = UNKNOWN, "case %s" % label
     return worst, detail
 
 
